@@ -80,7 +80,7 @@ func recAns(n, t int, shares []crypto.Signature, signers []int) string {
 		if err != nil {
 			return "err " + errClass(err)
 		}
-		return "ok " + hx(s)
+		return "ok " + hx(hold("BLSReconstructThresholdSignature", s))
 	})
 }
 
@@ -448,7 +448,7 @@ func thOp(insp crypto.ThresholdSignatureInspector, tok string) string {
 			if err != nil {
 				return cls(err)
 			}
-			return "sig:" + hx(sg)
+			return "sig:" + hx(hold("ThresholdSignature", sg))
 		}
 		return "bad-op"
 	})
